@@ -23,11 +23,23 @@ package main
 //@   ensures [C18] guard: ret == nil ==> !isDirFI(fileInfoOf(root, cutBefore(name, ".p/"))) && sizeFI(fileInfoOf(root, cutBefore(name, ".p/"))) != 0
 //@   call strings.Cut requires [C18] sep: c_sep == ".p/" && c_s == name
 
+// The size every removal decision is based on: that of the checkpoint published in the directory being cleaned.
+//@ pure func publishedSize(root Ref) int
+//@ func partial-aftersun.main noreturn props C18
+//@   call partial-aftersun.cleanDir requires [C18] size-is-that-of-the-directory-being-cleaned: c_size == publishedSize(c_root) && c_root != nil
+//@   call partial-aftersun.mirroredLogSize requires [C18] mirror-directory-named-by-its-origin-hash: c_root == rootOf(pjoin(pjoin(c.Witness.LocalDirectory, "mirror"), c_originHash))
+
 //@ func partial-aftersun.logSize props C18
+//@   call fs.ReadFile "checkpoint" requires [C18] reads-the-checkpoint-of-this-directory: c_fsys == rootFSOf(root) && c_name == "checkpoint"
+//@   defines ret1 == nil ==> ret0 == publishedSize(root)
+//@   ensures [C18] size-is-not-negative: ret1 == nil ==> ret0 >= 0
 //@   returns [C18] verified: ret1 == nil ==> openedBy(n, signedCheckpoint, vlist1(verifier)) && isRFCVerifier(verifier, log.Name, pubKey)
 //@   returns [C18] origin: ret1 == nil ==> checkpoint == ckptOf(n.Text) && checkpoint.Origin == log.Name && ret0 == checkpoint.N
 
 //@ func partial-aftersun.mirroredLogSize props C18
+//@   call fs.ReadFile requires [C18] reads-the-checkpoint-of-this-directory: c_fsys == rootFSOf(root) && c_name == "checkpoint"
+//@   defines ret1 == nil ==> ret0 == publishedSize(root)
+//@   ensures [C18] size-is-not-negative: ret1 == nil ==> ret0 >= 0
 //@   returns [C18] origin-hash: ret1 == nil ==> originHashOf(checkpoint.Origin) == originHash && ret0 == checkpoint.N
 
 //@ lemma [C18] L-edge: forall size int, size2 int, L int, N int :: \
